@@ -28,6 +28,7 @@ type Ctx struct {
 	Fset    *token.FileSet
 	Pkgs    map[string]*packages.Package // by import path, module packages only
 	immGlob map[*ssa.Global]bool
+	renamed []string            // anchors found by type after a rename (anchors.go)
 	All     []*packages.Package // every package with syntax (deps too)
 	Prog    *ssa.Program
 	SSA     map[string]*ssa.Package // by import path (module + deps that have SSA)
@@ -67,7 +68,7 @@ func Load(repo, goarch, tags string) *Ctx {
 		Mode:  packages.LoadAllSyntax,
 		Dir:   repo,
 		Env:   env,
-		Tests: false,
+		Tests: os.Getenv("TABVERIF_TESTS") == "1", // only the DEBUG-rename helper loads test files
 	}
 	if tags != "" {
 		cfg.BuildFlags = []string{"-tags=" + tags}
@@ -253,6 +254,9 @@ func (c *Ctx) Field(n *types.Named, name string) *types.Var {
 			}
 		}
 	}
+	if v := c.renamedField(n, name); v != nil {
+		return v
+	}
 	c.R.AnchorMissing("field " + n.Obj().Name() + "." + name)
 	return nil
 }
@@ -269,7 +273,7 @@ func (c *Ctx) FieldOpt(n *types.Named, name string) *types.Var {
 			}
 		}
 	}
-	return nil
+	return c.renamedField(n, name)
 }
 
 // Func resolves a package-level function to its SSA function.
@@ -280,6 +284,9 @@ func (c *Ctx) Func(rel, name string) *ssa.Function {
 		return nil
 	}
 	fn := sp.Func(name)
+	if fn == nil {
+		fn = c.renamedFunc(rel, "", name)
+	}
 	if fn == nil {
 		c.R.AnchorMissing("func " + relPkg(pkgPath(rel)) + "." + name)
 	}
@@ -292,7 +299,10 @@ func (c *Ctx) FuncOpt(rel, name string) *ssa.Function {
 	if sp == nil {
 		return nil
 	}
-	return sp.Func(name)
+	if fn := sp.Func(name); fn != nil {
+		return fn
+	}
+	return c.renamedFunc(rel, "", name)
 }
 
 // Method resolves a method on T or *T by name.
@@ -331,6 +341,9 @@ func (c *Ctx) MethodOpt(n *types.Named, ptr bool, name string) *ssa.Function {
 			}
 			return c.Prog.FuncValue(f)
 		}
+	}
+	if n.Obj().Pkg() != nil {
+		return c.renamedFunc(relPkg(n.Obj().Pkg().Path()), n.Obj().Name(), name)
 	}
 	return nil
 }
